@@ -341,6 +341,21 @@ def _check_sample(res, db, copies, rl, depth, desc, params=None, truth=False):
     res.check("planted_majors_among_best", planted_majors in reported,
               "the planted combination of major alleles is not among the best solutions",
               reported=[_sim.solution_summary(s) for s in sols][:4], **desc)
+    # the printed diplotype of a solution that has the planted majors names exactly the planted combination: every
+    # copy once (fusion suffix removed), the whole-gene deletion for each missing haplotype
+    n_called = sum(planted_majors.values())
+    want_names = collections.Counter(m.split("#")[0] for m in planted_majors.elements())
+    if dele and n_called < 2:
+        want_names[dele] += 2 - n_called
+    for s in sols:
+        if collections.Counter(a.major for a in s.solution) != planted_majors:
+            continue
+        dip = s.get_major_diplotype()
+        toks = [t for part in dip.split(" / ") for t in part.split(" + ") if t.strip()]
+        got_names = collections.Counter(t.strip().lstrip("*").split("+")[0] for t in toks)
+        res.check("diplotype_names_planted", got_names == want_names,
+                  "the printed diplotype does not name the planted combination of major alleles",
+                  diplotype=dip, expected=sorted(want_names.elements()), **desc)
     want = planted_variants(g, [c for c in copies if c[0] != dele])
     for s in sols:
         if tuple(sorted(s.major_solution.cn_solution.solution.elements())) != planted_cfg:
